@@ -142,4 +142,14 @@ CLAIMS = {
           'membership = own reading of codes.xml; not covered: 841.4010.XXXC (does not load), nodes with undefined data elements. Trusted: TLC, lib/c15_*.py projections.',
   'technique': 'TLA+ model checking (TLC) of Impl-admissible-for-Def + replay of TLC cases on real map nodes + TLC trace validation of the complete recorded table',
  },
+ 'C09': {
+  'text': 'Context.tla defines, from the located source segments (loop path of the node each matched, first-segment flag), the yield sequence for a requested loop id (Groups: plain segments outside, '
+          'one tree per instance of the loop cut at each of its first segments, last tree at end of input) and the address of every segment inside its tree (chain of <<child loop id, instance>>, a fresh '
+          'instance at every first segment). Conformant documents from TLC DocGen (covering set + longest random deep walks: loops repeating back-to-back, ending their parent or the file, nested in '
+          'repeating parents) of 6 maps (thorough: all) are iterated with the real X12ContextReader for no loop id and every segment-anchored loop id they contain, envelope loops included; T_Context (TLC) '
+          'validates per run: no segment lost / duplicated / reordered, content, position in set and source line, grouping, tree root, tree shape.',
+  'note': 'Placement oracle = the node pyx12 matched in an independent validation run (bound to the walker transcription by C02); map objects are memoised inside the harness process. One recorded '
+          'finding (ISA_LOOP trees lack the GS_LOOP level). Trusted: TLC, the tree flattener in lib/c09.py.',
+  'technique': 'TLA+ definition of the partition + replay of TLC-generated documents through X12ContextReader for every loop id + TLC trace validation',
+ },
 }
